@@ -45,6 +45,8 @@ static _Bool verif_thrown = 0;
 #define VERIF_OBL(c, name) __CPROVER_assert(verif_thrown || (c), name)
 #define VERIF_ASSERT(c, name) __CPROVER_assert(verif_thrown || (c), name)
 /* a ghost lemma: proved (obligation) where it stands, then available to the solver */
+/* an instance of an axiom schema declared with @axiom in the unit (assumed; listed in the evidence) */
+#define VERIF_INSTANTIATE(ax, term) __CPROVER_assume(ax(term))
 #define VERIF_LEMMA(c, name) do { __CPROVER_assert(verif_thrown || (c), name); __CPROVER_assume(verif_thrown || (c)); } while (0)
 #define VERIF_HAVOC(x) do { __typeof__(x) verif_h; (x) = verif_h; } while (0)
 
